@@ -80,6 +80,11 @@ def tasks(tier, seed):
             out.append({"family": "SPLIT", "id": text_id(text, c), "text": text, "opts": {"component": c, "backends": sorted(set(bs))}})
             out.append({"family": "SPLIT", "id": text_id(text, c + "|ru"), "text": text,
                         "opts": {"component": c, "backends": ["numpy"], "remove_unused": True}})
+    for k, text in enumerate(MODELS[:6]):
+        comps = sorted(set(re.findall(r'expressions\("([^"]+)"\)', text)))
+        for handle in ("reload", "stale"):
+            out.append({"family": "SPLIT", "id": text_id(text, comps[k % len(comps)] + "|" + handle), "text": text,
+                        "opts": {"component": comps[k % len(comps)], "backends": ["numpy"], "handle": handle}})
     # generated splits: programs of the shared value universe (dependency DAGs, expression / function / conditional
     # packs, the wide program) with their declarations distributed over 2-3 components, every component as the split
     V = families.value_programs(tier, seed)
@@ -216,7 +221,16 @@ def work(task):
         return prog.result()
     cname = task["opts"]["component"]
     try:
-        comp = ode.get_component(cname)
+        handle = task["opts"].get("handle")
+        if handle == "reload":
+            # the component handle comes from a second load of the same text (an equal, not identical, object)
+            comp = pipeline.load(task["text"]).get_component(cname)
+        elif handle == "stale":
+            # the handle was taken before the model was rebuilt by remove_singularities()
+            comp = ode.get_component(cname)
+            ode = ode.remove_singularities()
+        else:
+            comp = ode.get_component(cname)
         A = comp.to_ode()
         B = ode - comp
     except Exception as e:
